@@ -119,22 +119,31 @@ structure LazyState (C : Codec) where
 
 def LazyState.init {C : Codec} (src : Src) : LazyState C := ⟨src, none, none⟩
 
+/-- Which wrappers record EVERY error returned by the decoder in their sticky field (not only a
+constructor error): `BrotliReader` does (fixes/C14-4: the brotli library itself forgets its
+errors); gzip, deflate and zstd rely on their libraries' own stickiness. -/
+def keeps : Alg → Bool
+  | .br => true
+  | _ => false
+
 /-- `if r.zerr != nil {return 0, r.zerr}; if r.zr == nil {r.zr, err = New(r.Body); if err != nil
-{r.zerr = err; return 0, err}}; return r.zr.Read(p)` -/
-def lazyRead (C : Codec) (st : LazyState C) (n : Nat) : LazyState C × Bytes × Option Term :=
+{r.zerr = err; return 0, err}}; n, err = r.zr.Read(p); [keep: if err != nil {r.zerr = err}];
+return n, err` -/
+def lazyRead (C : Codec) (keep : Bool) (st : LazyState C) (n : Nat) :
+    LazyState C × Bytes × Option Term :=
   match st.zerr with
   | some e => (st, [], some e)
   | none =>
     match st.inner with
     | some s =>
       let r := C.read s n
-      ({ st with inner := some r.1 }, r.2.1, r.2.2)
+      ({ st with inner := some r.1, zerr := if keep then r.2.2 else none }, r.2.1, r.2.2)
     | none =>
       match C.openR st.src with
       | .error e => ({ st with zerr := some e }, [], some e)
       | .ok s =>
         let r := C.read s n
-        ({ st with inner := some r.1 }, r.2.1, r.2.2)
+        ({ st with inner := some r.1, zerr := if keep then r.2.2 else none }, r.2.1, r.2.2)
 
 /-- `GzipReader.Close` (when the underlying `Body.Close()` succeeds): `zerr = fs.ErrClosed`. -/
 def lazyClose {C : Codec} (st : LazyState C) : LazyState C := { st with zerr := some errClosed }
@@ -198,12 +207,12 @@ inductive Op
   deriving DecidableEq, Repr
 
 /-- Run a script of reads/closes against the lazy reader; one result per read. -/
-def lazyRun (C : Codec) : LazyState C → List Op → List (Bytes × Option Term)
+def lazyRun (C : Codec) (keep : Bool) : LazyState C → List Op → List (Bytes × Option Term)
   | _, [] => []
   | st, .read n :: ops =>
-    let r := lazyRead C st n
-    (r.2.1, r.2.2) :: lazyRun C r.1 ops
-  | st, .close :: ops => lazyRun C (lazyClose st) ops
+    let r := lazyRead C keep st n
+    (r.2.1, r.2.2) :: lazyRun C keep r.1 ops
+  | st, .close :: ops => lazyRun C keep (lazyClose st) ops
 
 def h1gzRun (C : Codec) : H1GzState C → List Op → List (Bytes × Option Term)
   | _, [] => []
